@@ -247,7 +247,14 @@ func (vc *VC) checkPosts(st *State, n ast.Node) {
 	env := vc.specEnvAt(st, pos)
 	env.where = "ensures"
 	// in posts, parameter names denote their values at return; old(x) their entry values
+	isRes := map[types.Object]bool{}
+	for _, ro := range vc.resObjs {
+		isRes[ro] = true
+	}
 	for o, v := range vc.entry.vars {
+		if isRes[o] {
+			continue // results have no entry value: inside old() they still denote the returned value
+		}
 		env.names["$old:"+o.Name()] = v
 	}
 	for _, e := range vc.con.Ensures {
